@@ -5,7 +5,8 @@ use crate::svg::Doc;
 
 pub struct C17;
 
-const TEMPLATES: [&str; 12] = [
+const TEMPLATES: [&str; 13] = [
+    "x \"lbl\"",
     "+--+",
     "|  |",
     "hello",
@@ -54,7 +55,7 @@ impl Prop for C17 {
         "C17"
     }
     fn rule(&self) -> &'static str {
-        "all documents of up to 2 (quick) / 3 (thorough) lines from 12 line templates (box parts, text, quoted text, CJK, arrow, empty line, legend header, \
+        "all documents of up to 2 (quick) / 3 (thorough) lines from 13 line templates, plus four fixed legends with 2-3 entries (box parts, text, quoted text, CJK, arrow, empty line, legend header, \
          three legend entries incl. a multi-line one) x {LF, CRLF} x a trailing blank from {none, space, TAB, space+TAB} per line x 0..5 trailing blank lines; \
          each variant's parsed document must equal the LF/no-blank reference (style text modulo white-space runs). \
          distinct_nontrivial = distinct reference outputs (skeleton + style length)"
@@ -78,6 +79,15 @@ impl Prop for C17 {
                         lines.reverse();
                         f(Case::snx("", vec![], lines));
                     }
+                }
+                // legends with several entries (also reachable as 3-line documents in the thorough tier)
+                for doc in [
+                    vec!["# Legend:", "a = {fill:red}", "b1 = {stroke: blue; fill: none}"],
+                    vec!["+--+", "# Legend:", "a = {fill:red}", "b1 = {stroke: blue; fill: none}"],
+                    vec!["# Legend:", "a = {fill:red}", "b1 = {stroke: blue; fill: none}", "a = {x:1}"],
+                    vec!["x \"lbl\"", "ab", "# Legend:", "a = {fill:red}"],
+                ] {
+                    f(Case::snx("", vec![], doc.into_iter().map(|l| l.to_string()).collect()));
                 }
             },
         )]
